@@ -23,6 +23,11 @@ Definition drops (evs : list event) : list N :=
   flat_map (fun e => match e with EDrop t => [t] | _ => [] end) evs.
 (** identities that become unreachable without being destroyed: the tail hidden by a forgotten
     removal handle (and the contents of a slot overwritten by [new]) *)
+Definition new_leak (c : cfg) (st : astate) (dst : nat) (bk : bkind) : list N :=
+  match bk with
+  | BStackN n size => if stackn_fits n (c_sz c) size then slot_xs (get_a dst st) else []
+  | _ => slot_xs (get_a dst st)
+  end.
 Definition leak_of (c : cfg) (st : astate) (o : op) : list N :=
   match o with
   | OPop _ v KForget =>
@@ -46,10 +51,12 @@ Definition leak_of (c : cfg) (st : astate) (o : op) : list N :=
       end
   | ONew dst bk =>
       (* a vector built into an occupied slot replaces what was there *)
-      match bk with
-      | BStackN n size => if stackn_fits n (c_sz c) size then slot_xs (get_a dst st) else []
-      | _ => slot_xs (get_a dst st)
-      end
+      new_leak c st dst bk
+  | OClone v dst => if Nat.eqb dst v then [] else match get_a v st with Some _ => slot_xs (get_a dst st) | None => [] end
+  | OCloneEmpty v dst =>
+      match get_a v st with Some a => if Nat.eqb dst v then [] else new_leak c st dst (a_bk a) | None => [] end
+  | OCloneEmptyIn v dst bk =>
+      match get_a v st with Some _ => if Nat.eqb dst v then [] else new_leak c st dst bk | None => [] end
   | _ => []
   end.
 
@@ -64,6 +71,24 @@ Proof.
   - cbn [ids app]. rewrite N.add_0_r. reflexivity.
   - change (ids c from (S (S n))) with (tok c from :: ids c (from + 1) (S n)).
     rewrite IH. cbn [ids app]. do 3 f_equal. f_equal. rewrite Nat2N.inj_succ. lia.
+Qed.
+Lemma ids_app c from n m : ids c from (n + m) = ids c from n ++ ids c (from + N.of_nat n) m.
+Proof.
+  revert from. induction n as [|n IH]; intros from.
+  - cbn [ids app Nat.add]. rewrite N.add_0_r. reflexivity.
+  - cbn [Nat.add ids app]. f_equal. rewrite IH. do 2 f_equal. rewrite Nat2N.inj_succ. lia.
+Qed.
+Lemma ids_next c from n : ids c from n = next_ids c from n.
+Proof.
+  unfold next_ids. revert from. induction n as [|n IH]; intros from; [reflexivity|].
+  cbn [ids seq map]. rewrite N.add_0_r. f_equal. rewrite IH, <- seq_shift, map_map.
+  apply map_ext. intros k. f_equal. rewrite Nat2N.inj_succ. lia.
+Qed.
+Lemma created_add c nx n : 1 <= nx -> created c (nx + N.of_nat n) = created c nx ++ next_ids c nx n.
+Proof.
+  intros H. unfold created.
+  assert (E : N.to_nat (nx + N.of_nat n - 1) = (N.to_nat (nx - 1) + n)%nat) by lia.
+  rewrite E, ids_app, <- ids_next. do 2 f_equal. lia.
 Qed.
 Lemma created_succ c nx : 1 <= nx -> created c (nx + 1) = created c nx ++ [tok c nx].
 Proof.
@@ -373,6 +398,19 @@ Proof.
     destruct f; perm_count.
 Qed.
 
+Lemma new_own st nx dst bk r D L :
+  sp_new c st nx dst bk = Some r ->
+  Permutation (created c nx) (vis st ++ D ++ L) ->
+  Permutation (created c (s_nx r)) (vis (s_st r) ++ (D ++ drops (s_evs r)) ++ (L ++ new_leak c st dst bk)).
+Proof.
+  intros Hr Hinv. unfold sp_new in Hr. unfold new_leak.
+  pose proof (vis_get_any st dst) as Hv. pose proof (vis_set_any st dst (Some {| a_bk := bk; a_xs := [] |})) as H1.
+  cbn [slot_xs a_xs app] in H1.
+  destruct bk as [|size|n size| |c0]; try (injection Hr as <-; cbn [ok_res s_nx s_st s_evs drops flat_map]; perm_count).
+  destruct (stackn_fits n (c_sz c) size); injection Hr as <-;
+    cbn [ok_res panic_res s_nx s_st s_evs drops flat_map]; perm_count.
+Qed.
+
 Lemma app_nil_perm (l : list N) : Permutation (l ++ []) l.
 Proof. rewrite app_nil_r. reflexivity. Qed.
 
@@ -383,11 +421,7 @@ Theorem step_own st nx o r D L :
 Proof.
   intros Hnx Hr Hinv. destruct o; cbn [spec_step] in Hr; try discriminate.
   - (* ONew *)
-    pose proof (vis_get_any st dst) as Hv. pose proof (vis_set_any st dst (Some {| a_bk := bk; a_xs := [] |})) as H1.
-    cbn [slot_xs a_xs app] in H1. cbn [leak_of].
-    destruct bk as [|size|n size| |c0]; try (injection Hr as <-; cbn [ok_res s_nx s_st s_evs drops flat_map]; perm_count).
-    destruct (stackn_fits n (c_sz c) size); injection Hr as <-;
-      cbn [ok_res panic_res s_nx s_st s_evs drops flat_map]; perm_count.
+    exact (new_own st nx dst bk r D L Hr Hinv).
   - (* ODropVec *)
     destruct (get_a v st) as [av|] eqn:Hg; [|discriminate]. injection Hr as <-.
     pose proof (vis_get_any st v) as Hv. rewrite Hg in Hv. cbn [slot_xs] in Hv.
@@ -421,6 +455,22 @@ Proof.
     destruct (idx <? N.of_nat (length (a_xs av))); injection Hr as <-;
       cbn [ok_res panic_res s_nx s_st s_evs leak_of drops flat_map]; perm_count.
   - exact (drain_own st nx v sb eb pat f r D L Hr Hinv).
+  - (* OClone *)
+    unfold sp_clone in Hr. cbn [leak_of]. destruct (Nat.eqb dst v); [discriminate|].
+    destruct (get_a v st) as [av|] eqn:Hg; [|discriminate]. injection Hr as <-.
+    cbn [ok_res s_nx s_st s_evs]. rewrite (created_add c nx _ Hnx).
+    pose proof (vis_get_any st dst) as Hv.
+    pose proof (vis_set_any st dst (Some {| a_bk := a_bk av; a_xs := next_ids c nx (length (a_xs av)) |})) as H1.
+    cbn [slot_xs a_xs] in H1.
+    assert (Hnd : drops (map (fun p : N * N => EClone (fst p) (snd p)) (combine (a_xs av) (next_ids c nx (length (a_xs av))))) = []).
+    { generalize (combine (a_xs av) (next_ids c nx (length (a_xs av)))) as l. induction l as [|p l IH]; [reflexivity|exact IH]. }
+    rewrite Hnd. perm_count.
+  - (* OCloneEmpty *)
+    cbn [leak_of]. destruct (get_a v st) as [av|]; [|discriminate]. destruct (Nat.eqb dst v); [discriminate|].
+    exact (new_own st nx dst (a_bk av) r D L Hr Hinv).
+  - (* OCloneEmptyIn *)
+    cbn [leak_of]. destruct (get_a v st) as [av|]; [|discriminate]. destruct (Nat.eqb dst v); [discriminate|].
+    exact (new_own st nx dst bk r D L Hr Hinv).
   - exact (capacity_own st nx v (Some n) false r D L Hr Hinv).
   - exact (capacity_own st nx v (Some n) true r D L Hr Hinv).
   - exact (capacity_own st nx v None false r D L Hr Hinv).
@@ -444,7 +494,7 @@ Fixpoint hist_leaks (c : cfg) (st : astate) (nx : N) (ops : list op) : list N :=
 Lemma spec_nx_mono c st nx o r : spec_step c st nx o = Some r -> nx <= s_nx r.
 Proof.
   intros H. destruct o; cbn [spec_step] in H; try discriminate;
-    unfold sp_offer, sp_take, sp_take_elem, sp_capacity, sp_drain in H; cbv zeta in H;
+    unfold sp_offer, sp_take, sp_take_elem, sp_capacity, sp_drain, sp_new, sp_clone in H; cbv zeta in H;
     repeat match type of H with
     | Some _ = Some _ => injection H as <-
     | None = Some _ => discriminate H
